@@ -239,3 +239,30 @@ fn c04_datatype_table() {
     match d.datatype() { Ok(t) => assert!(t == want, "datatype() disagrees with the RFC 8949 type table"), Err(_) => assert!(false) }
     kani::cover!(b == 0x3b && nx == 0x80);
 }
+
+// Kani mirror of the Verus step contracts of the chunk iterators (counterexample provider): a chunked byte string
+// `5f 41 x 42 y z ff` yields exactly its chunks, then the end, and the break is consumed; cut between chunks (no break) the
+// iterator reports end-of-input instead of ending quietly.
+// @harness name=c04_bytes_iter_steps props=C04,C02,C06 kind=complete
+#[kani::proof]
+#[kani::unwind(6)]
+fn c04_bytes_iter_steps() {
+    let x: u8 = kani::any(); let y: u8 = kani::any(); let z: u8 = kani::any(); let j: u8 = kani::any();
+    let buf = [0x5fu8, 0x41, x, 0x42, y, z, 0xff, j];
+    let mut d = Decoder::new(&buf);
+    {
+        let mut it = match d.bytes_iter() { Ok(it) => it, Err(_) => { assert!(false); return } };
+        match it.next() { Some(Ok(c)) => assert!(c.len() == 1 && c[0] == x && c.as_ptr() == buf[2 ..].as_ptr(), "first chunk"), _ => assert!(false, "first chunk missing") }
+        match it.next() { Some(Ok(c)) => assert!(c.len() == 2 && c[0] == y && c[1] == z, "second chunk"), _ => assert!(false, "second chunk missing") }
+        assert!(it.next().is_none(), "iteration must end at the break");
+    }
+    assert!(d.position() == 7, "the break must be consumed");
+    // the same string cut right after the first chunk: not a quiet end
+    let mut d = Decoder::new(&buf[.. 3]);
+    {
+        let mut it = match d.bytes_iter() { Ok(it) => it, Err(_) => { assert!(false); return } };
+        assert!(matches!(it.next(), Some(Ok(_))));
+        match it.next() { Some(Err(e)) => assert!(e.is_end_of_input()), _ => assert!(false, "end of input between chunks must be an error, not the end of the iteration") }
+    }
+    kani::cover!(true);
+}
